@@ -192,20 +192,23 @@ func c19Redact(args []string) error {
 							node["actions"] = append(pre, acts...)
 						}}
 						bb := *b
+						// the policy in force is the one the HOST gave last: the trigger's, then that of every resume the
+						// session accepted (a rejected resume or one that finds resumption impossible applies nothing) - not
+						// what the session says about itself
+						inForce, accepted := policy, 0
 						rerr := runBehaviour(&bb, opts, src, func(k int, c Call, line *TLine, s flows.Session, sp flows.Sprint) {
+							if line.Accepted > accepted && pp[1] != "" {
+								inForce = pp[1]
+							}
+							accepted = line.Accepted
 							if s == nil || line.Panic != "" {
 								obs[tw] = append(obs[tw], map[string]string{"<panic>": line.Panic})
 								ids[tw] = append(ids[tw], "")
-								eff[tw] = append(eff[tw], policy)
+								eff[tw] = append(eff[tw], inForce)
 								return
 							}
 							obs[tw] = append(obs[tw], observeContext(s))
-							// the policy in force is the one the session reports through its public environment
-							if s.Environment().RedactionPolicy() == envs.RedactionPolicyURNs {
-								eff[tw] = append(eff[tw], "urns")
-							} else {
-								eff[tw] = append(eff[tw], "none")
-							}
+							eff[tw] = append(eff[tw], inForce)
 							id := ""
 							if s.Contact() != nil {
 								id = fmt.Sprint(s.Contact().ID())
